@@ -98,6 +98,22 @@ package table
 //@   ensures result == nil && !old(has(table.rowmap, bytes(primaryKey))) ==> !(exists j :: 0 <= j && j < old(len(table.rows)) && old(table.rows[j].Ty) == 3 && old(bytes(table.rows[j].Primary)) == bytes(primaryKey))
 //@   ensures result == nil && !old(has(table.rowmap, bytes(primaryKey))) ==> len(table.rows) == old(len(table.rows)) + 1 && table.rows[old(len(table.rows))].Ty == 2 && table.rows[old(len(table.rows))].Data == newdata && table.rows[old(len(table.rows))].old == ret0(findRow).Data
 //@   ensures result == nil && old(has(table.rowmap, bytes(primaryKey))) ==> len(table.rows) == old(len(table.rows)) && old(table.rowmap[bytes(primaryKey)]).Data == newdata
+// ... and keeps its kind and its `old` (the data the database holds, which Save uses to delete the index
+// records that are really stored) however many times it is modified before the save
+//@   ensures result == nil && old(has(table.rowmap, bytes(primaryKey))) ==> old(table.rowmap[bytes(primaryKey)]).old == old(table.rowmap[bytes(primaryKey)].old) && old(table.rowmap[bytes(primaryKey)]).Ty == old(table.rowmap[bytes(primaryKey)].Ty)
+
+// Replace: a pending row is modified in place (kind and `old` kept); a stored row gets an Update row with
+// the stored data as `old`; an absent key (or an auto primary key) gets an Add row
+//@ func (*Table).Replace [C10]
+//@   opt safety=assumed overflow=assumed
+//@   requires table.rowmap != nil && table.opt != nil
+//@   requires forall j :: 0 <= j && j < len(table.rows) ==> table.rows[j] != nil
+//@   requires forall k Bytes :: has(table.rowmap, k) ==> table.rowmap[k] != nil
+//@   ensures result == nil && called(findRow) && old(has(table.rowmap, bytes(ret0(primaryKey)))) ==> len(table.rows) == old(len(table.rows)) && old(table.rowmap[bytes(ret0(primaryKey))]).Data == data
+//@   ensures result == nil && called(findRow) && old(has(table.rowmap, bytes(ret0(primaryKey)))) ==> old(table.rowmap[bytes(ret0(primaryKey))]).old == old(table.rowmap[bytes(ret0(primaryKey))].old) && old(table.rowmap[bytes(ret0(primaryKey))]).Ty == old(table.rowmap[bytes(ret0(primaryKey))].Ty)
+//@   ensures result == nil && called(findRow) && !old(has(table.rowmap, bytes(ret0(primaryKey)))) && ret2(findRow) == nil ==> len(table.rows) == old(len(table.rows)) + 1 && table.rows[old(len(table.rows))].Ty == 2 && table.rows[old(len(table.rows))].Data == data && table.rows[old(len(table.rows))].old == ret0(findRow).Data
+//@   ensures result == nil && (!called(findRow) || ret2(findRow) == types.ErrNotFound) ==> len(table.rows) == old(len(table.rows)) + 1 && table.rows[old(len(table.rows))].Ty == 1 && table.rows[old(len(table.rows))].Data == data
+//@   assert@call findRow: arg1 == ret0(primaryKey)
 
 // ---- C10: translating a pending row into data and index records ------------------------------------------
 // idxVal(data, name): the value of index `name` for a payload (RowMeta.SetPayload + Get, abstract);
